@@ -83,7 +83,7 @@ def run(ctx: Ctx):
     terms = {s: u(updates[s][0][0].value) for s in STATS if updates.get(s)}
     xdefs = [d for d in rd.defs if d.name == "x" and d.kind == "assign"]
     layout = u(xdefs[0].value) if len(xdefs) == 1 else None
-    col.ob("G12", "S1", f"{W('accumulate')}::terms", terms == {"count": "x.size(1)", "sum": "x.sum(1)", "sumsq": "x.square().sum(1)"}
+    col.ob("G12", "S1", f"{W('accumulate')}::terms", terms == {"count": "x.shape[1]", "sum": "x.sum(1)", "sumsq": "x.square().sum(1)"}
            and layout == "x.transpose(0, self.dim).unsqueeze(-1).flatten(1)",
            f"the accumulated terms are {terms} over the layout `{layout}`; expected the number of frames, the sum and the "
            f"sum of squares over axis 1 of x.transpose(0, dim)...flatten(1)", rel, acc.line, sample=terms)
@@ -388,10 +388,11 @@ def _discount_matrix(ctx: Ctx, tdr):
                 cn = call_name(e)
                 if cn == "torch.arange" and len(e.args) == 1:
                     n = e.args[0]
-                    if not (isinstance(n, ast.Call) and isinstance(n.func, ast.Attribute) and n.func.attr == "size"
-                            and u(n.func.value) == rname and n.args and isinstance(n.args[0], ast.Constant)):
+                    from sa.astutil import extent_of as _eo
+                    eo_ = _eo(n)
+                    if eo_ is None or eo_[0] != rname:
                         raise Undecided(f"arange extent `{u(n)}`")
-                    return ("index", n.args[0].value)
+                    return ("index", eo_[1])
                 if cn == "torch.pow" and len(e.args) == 2 and u(e.args[0]) == gname:
                     v = ev(e.args[1], depth + 1)
                     if v[0] == "imat":
